@@ -76,6 +76,16 @@ func baseSpec(t *rapid.T) (gen.CRLSpec, string) {
 	for i := 0; i < n; i++ {
 		s.Entries = append(s.Entries, gen.DrawEntry(t, fmt.Sprintf("be%d", i), s.Version >= 0))
 	}
+	if len(s.Entries) > 0 && rapid.IntRange(0, 5).Draw(t, "blarge") == 0 {
+		// production-size list: hostile fields are then followed by well over 64 KiB of real data
+		big := rapid.IntRange(2500, 6000).Draw(t, "bbig")
+		tpl := s.Entries
+		for i := 0; i < big; i++ {
+			e := tpl[i%len(tpl)]
+			e.SerialHex = fmt.Sprintf("%s%06x", e.SerialHex[:min(len(e.SerialHex), 34)], i)
+			s.Entries = append(s.Entries, e)
+		}
+	}
 	if s.Version >= 0 && rapid.IntRange(0, 3).Draw(t, "bx") != 0 {
 		s.HasExts = true
 		s.Exts = []gen.Ext{gen.CRLNumberExt([]byte{1, 2}), {OID: gen.OIDAKI, Value: gen.TLV(0x30, gen.TLV(0x80, []byte{1, 2, 3, 4}))}}
@@ -92,6 +102,10 @@ func mutateTree(t *rapid.T, der []byte) ([]byte, string) {
 	muts := rapid.IntRange(1, 2).Draw(t, "nmut")
 	for m := 0; m < muts; m++ {
 		refs := gen.Flatten(roots)
+		if len(refs) > 400 {
+			// large list: mutate the head (tbs fields, first entries) or the tail (extensions, signature)
+			refs = append(append([]gen.NodeRef{}, refs[:40]...), refs[len(refs)-25:]...)
+		}
 		r := refs[rapid.IntRange(0, len(refs)-1).Draw(t, fmt.Sprintf("node%d", m))]
 		n := r.Node
 		kind := rapid.SampledFrom([]string{"hostile-len", "hostile-len", "hostile-len", "tag", "len-delta", "drop-content", "bytes", "nest", "delete", "dup", "empty"}).Draw(t, fmt.Sprintf("mk%d", m))
@@ -429,6 +443,9 @@ func runCase(c Case, x *ev.Ctx) error {
 		}
 		if prepassOK(c.Data) {
 			x.Class("crl/reached-main-pass")
+			if len(c.Data) > 70000 {
+				x.Class("crl/large-base")
+			}
 			x.NonTrivial(fmt.Sprintf("crl|%s|%s|%d|%v", c.Kind, c.Note, len(c.Data)/64, d.started))
 		}
 	case "chain":
